@@ -339,6 +339,10 @@ class _ParallelMapperImpl(BaseNode[T]):
     def reset(self, initial_state: Optional[Dict[str, Any]] = None):
         super().reset(initial_state)
         if self._it is not None:
+            # Stop the old iterator explicitly: __del__ may be deferred (e.g. a re-raised exception
+            # keeps its frames, and through them the iterator, alive until the cyclic GC runs), and
+            # until then its read thread would keep pulling from the shared source.
+            self._it._shutdown()
             del self._it
 
         if self.num_workers > 0:
